@@ -29,7 +29,12 @@ import excel2pycl.src.utilities.parser as PM
 from excel2pycl.src.exceptions import E2PyclParserException, E2PyclSafetyException
 
 PATHS = [None, 'A.xlsx', 'B.xlsx', 'U.xlsx']      # U.xlsx holds a suspicious cell
-ENTRIES = [None, 'e1', 'e2']
+from excel2pycl.src.cell import Cell
+
+def _entries():
+    return [None, Cell(0, 1, 0), Cell('S', 'C', '2')]       # real Cell objects: by index, and by sheet title / letters
+
+ENTRIES = _entries()       # pristine templates for the expectations; the parser under test gets its own objects
 
 def unsafe(p):
     return p == 'U.xlsx'
@@ -67,6 +72,8 @@ class StubCellTranslator:
     @classmethod
     def translate(cls, cell, excel, context):
         context.res = text(excel.path, cell, excel.ver)
+        # like the real translator (handle_cell / fill_cell), the cell it is handed is normalised in place
+        cell.title, cell.column, cell.row, cell.value, cell._handled_identifiers = 0, 7, 7, 'filled', True
     @classmethod
     def translate_file(cls, excel, context):
         context.res = text(excel.path, None, excel.ver)
@@ -94,7 +101,7 @@ def mk(pi, ei, safety, f1, f2, f3, has_t, tpi, tei):
     """Parser in an arbitrary state; cached translation is None or the text of some earlier settings"""
     p = PM.Parser()
     p._excel_file_path = PATHS[pi]
-    p._entrypoint_cell = ENTRIES[ei]
+    p._entrypoint_cell = _entries()[ei]
     p._safety_check = safety
     for k, v in zip(FLAGS, (f1, f2, f3)):
         setattr(p, k, v)
@@ -145,7 +152,7 @@ def run(report, tier, seed):
     ''', encodes=enc, timeout=240)
     s.add('step_set_entry', st + ', nei: int', SPRE + ' and 0 <= nei < 3', '''
         p = mk(pi, ei, safety, f1, f2, f3, has_t, tpi, tei)
-        r = p.set_entrypoint_cell(ENTRIES[nei])
+        r = p.set_entrypoint_cell(_entries()[nei])
         return r is p and inv(p) and p._entrypoint_cell == ENTRIES[nei] and p._excel_file_path == PATHS[pi] and p._safety_check == safety
     ''', encodes=enc)
     s.add('step_enable_safety', st, SPRE, '''
@@ -210,8 +217,8 @@ from vlib import build
 from excel2pycl import Parser, Cell
 d = tempfile.mkdtemp(prefix='c09_', dir=%(work)r)
 # same layout and formula texts, different constants, and a referenced sheet at a different position
-A = [('Main', {'A1': 5, 'A2': 7, 'B1': '=A1+A2', 'C1': '=SUM(A1:A2)', 'D1': '=Other!A1*2', 'E1': '=IF(A1>3,A2,0)'}), ('Other', {'A1': 1}), ('Pad', {'A1': 9})]
-B = [('Main', {'A1': 50, 'A2': 70, 'B1': '=A1+A2', 'C1': '=SUM(A1:A2)', 'D1': '=Other!A1*2', 'E1': '=IF(A1>3,A2,0)'}), ('Pad', {'A1': 90}), ('Other', {'A1': 10})]
+A = [('Main', {'A1': 5, 'A2': 7, 'B1': '=A1+A2', 'C1': '=SUM(A1:A2)', 'D1': '=Other!A1*2', 'E1': '=IF(A1>3,A2,0)'}), ('Other', {'A1': 1, 'B1': '=A1+1'}), ('Pad', {'A1': 9, 'B1': '=A1+2'})]
+B = [('Main', {'A1': 50, 'A2': 70, 'B1': '=A1+A2', 'C1': '=SUM(A1:A2)', 'D1': '=Other!A1*2', 'E1': '=IF(A1>3,A2,0)'}), ('Pad', {'A1': 90, 'B1': '=A1+2'}), ('Other', {'A1': 10, 'B1': '=A1+1'})]
 def norm(sheets):
     return [(t, build.a1(c)) for t, c in sheets]
 pa = build.write_xlsx(os.path.join(d, 'a.xlsx'), norm(A))
@@ -221,12 +228,21 @@ out = {}
 if mode == 'fresh':
     out['b'] = Parser().disable_safety_check().set_excel_file_path(pb).get_translation()
     out['b_entry'] = Parser().disable_safety_check().set_excel_file_path(pb).set_entrypoint_cell(Cell(0, 3, 0)).get_translation()
+    out['b_entry_by_title'] = Parser().disable_safety_check().set_excel_file_path(pb).set_entrypoint_cell(Cell('Other', 'B', '1')).get_translation()
+    out['b_entry_by_title_again'] = out['b_entry_by_title']
 else:
     Parser().disable_safety_check().set_excel_file_path(pa).get_translation()
     p = Parser().disable_safety_check().set_excel_file_path(pa)
     p.get_translation()
     out['b'] = p.set_excel_file_path(pb).get_translation()
     out['b_entry'] = Parser().disable_safety_check().set_excel_file_path(pb).set_entrypoint_cell(Cell(0, 3, 0)).get_translation()
+    # the entry point is named by sheet title; the sheet sits at another position in the second workbook
+    c = Cell('Other', 'B', '1')
+    q = Parser().disable_safety_check().set_excel_file_path(pa).set_entrypoint_cell(c)
+    q.get_translation()
+    out['b_entry_by_title'] = q.set_excel_file_path(pb).get_translation()
+    # the caller's Cell object handed to a second parser afterwards
+    out['b_entry_by_title_again'] = Parser().disable_safety_check().set_excel_file_path(pb).set_entrypoint_cell(c).get_translation()
 import shutil; shutil.rmtree(d, ignore_errors=True)
 print(json.dumps(out))
 '''
@@ -254,7 +270,7 @@ def concrete_history(report):
                          f'translation of b ({bad}) depends on the earlier translation of a')
     else:
         report.condition('history.real_chain', 'concrete', 'holds', time.time() - t0, 2,
-                         'concrete differential (2 workbooks, whole-file and entry-point), not a solver verdict')
+                         'concrete differential (2 workbooks, whole-file, entry-point by index and by sheet title with the sheet at another position, the same Cell object reused), not a solver verdict')
 
 
 HASHSEED = r'''
